@@ -22,6 +22,7 @@ EXPLANATION = (
     ' (R15) discriminant tables: the numeric tag each TypeTag/ValueKind/opcode writer emits is the tag the matching reader arm accepts for that same variant (writer table = reader table, no two variants swapped).'
     ' (R16) kind ladders over Value::Matrix<K> / Value::<K> whose catch-all arm panics name every element kind the Value enum has; (R17) constant codecs agree field by field: the named fields ConstElem::write_le writes are read by from_le and written by CompileConst::compile_const in the same order and width.'
     " (R4, extended) the function-call arms of run_program agree on their effects: each records self.out from the function's out(); an arm that forgets it makes run_program return the previous instruction's value."
+    " (R18) a codec writer emits every value once: no straight-line region of a byte-layout writer writes the same non-constant value twice."
 )
 
 EVALUATORS = {
@@ -129,6 +130,12 @@ def out_field(fs):
 
 
 def run(F, rep, tier):
+    _run(F, rep, tier)
+    from rules.c06_dupwrite import run_r18
+    run_r18(F, rep)
+
+
+def _run(F, rep, tier):
     S = X.load_fxn_structs(F)
     reg, comp = X.load_registry(F)
     avk, disp = X.as_value_kind_table(F)
